@@ -75,6 +75,8 @@ def cases(draw, tier):
             case["tol_exp"] = min(case["tol_exp"], -8)
     # a real right-hand side (and guess) for a complex operator
     case["rrhs"] = kind == "complex" and draw(st.integers(1, 3)) == 1
+    case["pbar"] = draw(st.integers(1, 8)) == 1
+    case["cx0"] = draw(st.integers(1, 4)) == 1
     return case
 
 
@@ -150,6 +152,8 @@ def build(case):
     elif case.get("crhs") and case["rhs"] == "generic":  # complex right-hand side (and guess) for a real operator
         B = B + 1j * rng.standard_normal(B.shape)
         X0 = X0.astype(np.complex128) * (1 + 1j)
+    elif case.get("cx0") and case["x0"] == "drawn":  # a complex guess for an all-real system (a guess wider than the rhs dtype)
+        X0 = X0 + 1j * rng.standard_normal(X0.shape)
     if case["nrhs"] == 0:
         B, X0 = B[:, 0], X0[:, 0]
     if case.get("ascale"):
@@ -197,10 +201,25 @@ def tolerance_active(A, r0, m, tol):
     return bool(Hm.size and np.any(Hm.max(axis=0) <= 40 * tol * Hm.max()))
 
 
+PBAR = [False]
+
+
+class InputMutated(Exception):
+    pass
+
+
 def run(A, B, X0, m, tol, x0_none=False):
     from cola.linalg.inverse.gmres import gmres
     op = KR.counting_operator(A)
-    x, info = gmres(op, B.copy(), x0=None if x0_none else X0.copy(), max_iters=m, tol=tol)
+    Bc, Xc = B.copy(), X0.copy()
+    if PBAR[0]:  # the progress-bar option runs the same iteration through another loop wrapper
+        with oracle.quiet():
+            x, info = gmres(op, Bc, x0=None if x0_none else Xc, max_iters=m, tol=tol, pbar=True)
+    else:
+        x, info = gmres(op, Bc, x0=None if x0_none else Xc, max_iters=m, tol=tol)
+    if not (np.array_equal(Bc, B) and np.array_equal(Xc, X0)):
+        # the iterate is defined relative to the caller's b and x0: they must still be what the caller passed
+        raise InputMutated("gmres changed the caller's " + ("initial guess" if np.array_equal(Bc, B) else "right-hand side"))
     return np.asarray(x), info, op
 
 
@@ -235,6 +254,9 @@ def check_spread(case, out):
 def check(case, out):
     import cola
     sub = case["sub"]
+    PBAR[0] = bool(case.get("pbar"))
+    if PBAR[0]:
+        out.label("pbar")
     if sub == "spread":
         return check_spread(case, out)
     A, B, X0, condx = build(case)
@@ -255,6 +277,9 @@ def check(case, out):
     def call(fn):
         try:
             return fn()
+        except InputMutated as e:
+            out.fail(sub, site, "input_mutated", e)
+            return None
         except Exception as e:
             out.fail(sub, site, oracle.exc_man(e), e)
             return None
